@@ -5,6 +5,7 @@ The classes deliberately have NO `**kwargs`: every accepted key of every class i
 harness knows by construction (not by asking jsonargparse) which keys are defined at which level.
 """
 import contextlib
+import contextvars
 import enum
 import io
 import os
@@ -98,31 +99,41 @@ def run(fn, *args, limit=20, stdin="", **kw):
 
     Returns a dict: kind in {"ok","exc","exit","timeout"}, value | (cls, msg, site) | code, plus out/err texts.
     `site` is module.function of the innermost frame of the traceback (stable across line-number changes).
+    The time limit is `limit` seconds of CPU time of this process (independent of machine load), backed by 15 x limit
+    seconds of wall time for calls that block without computing.
     """
     out, err = io.StringIO(), io.StringIO()
     old_stdin = sys.stdin
     sys.stdin = io.StringIO(stdin)
     old_handler = signal.signal(signal.SIGALRM, _alarm)
-    signal.alarm(limit)
+    old_vhandler = signal.signal(signal.SIGVTALRM, _alarm)
+    signal.alarm(limit * 15)
+    signal.setitimer(signal.ITIMER_VIRTUAL, limit)
     res = {}
     try:
-        with contextlib.redirect_stdout(out), contextlib.redirect_stderr(err):
-            try:
-                res = {"kind": "ok", "value": fn(*args, **kw)}
-            except SystemExit as ex:
-                res = {"kind": "exit", "code": ex.code}
-            except Timeout:
-                res = {"kind": "timeout"}
-            except BaseException as ex:  # noqa
-                tb = traceback.extract_tb(ex.__traceback__)
-                site = "?"
-                if tb:
-                    fr = tb[-1]
-                    site = os.path.splitext(os.path.basename(fr.filename))[0] + "." + fr.name
-                res = {"kind": "exc", "cls": type(ex).__name__, "msg": str(ex), "site": site, "exc": ex}
+        try:
+            with contextlib.redirect_stdout(out), contextlib.redirect_stderr(err):
+                try:
+                    # a copy of the context: ContextVar changes of an interrupted or failed call cannot leak into the next call
+                    res = {"kind": "ok", "value": contextvars.copy_context().run(fn, *args, **kw)}
+                except SystemExit as ex:
+                    res = {"kind": "exit", "code": ex.code}
+                except Timeout:
+                    res = {"kind": "timeout"}
+                except BaseException as ex:  # noqa
+                    tb = traceback.extract_tb(ex.__traceback__)
+                    site = "?"
+                    if tb:
+                        fr = tb[-1]
+                        site = os.path.splitext(os.path.basename(fr.filename))[0] + "." + fr.name
+                    res = {"kind": "exc", "cls": type(ex).__name__, "msg": str(ex), "site": site, "exc": ex}
+        except Timeout:  # raised between the inner handlers and the end of the with block
+            res = {"kind": "timeout"}
     finally:
+        signal.setitimer(signal.ITIMER_VIRTUAL, 0)
         signal.alarm(0)
         signal.signal(signal.SIGALRM, old_handler)
+        signal.signal(signal.SIGVTALRM, old_vhandler)
         sys.stdin = old_stdin
     res["out"], res["err"] = out.getvalue(), err.getvalue()
     return res
